@@ -176,6 +176,15 @@ fn main() {
                     f.write_all(&d.to_le_bytes()).unwrap();
                 }
             }
+            if !ctx.aux.is_empty() {
+                let p2 = format!("{}.dig2", out);
+                let mut f = std::io::BufWriter::new(std::fs::File::create(&p2).unwrap_or_else(|e| die(&format!("{}: {}", p2, e))));
+                let mut v: Vec<u64> = ctx.aux.iter().copied().collect();
+                v.sort_unstable();
+                for d in v {
+                    f.write_all(&d.to_le_bytes()).unwrap();
+                }
+            }
             let mut docs: Vec<&String> = ctx.docs_seen.iter().collect();
             docs.sort();
             let j = serde_json::json!({
